@@ -24,6 +24,28 @@ CHECKS = {
         "own test_solver does); tolerance 4*eps*tf*count on times; recorded "
         "dt not asserted once the next nominal step would pass tf."),
   technique="property-based testing (Hypothesis) with history invariants and a reference model of the step schedule"),
+ 'C15': dict(
+  text=("Generated gas states over 12 orders of magnitude for the 11 solver "
+        "functions and the dispatch function; metamorphic oracles "
+        "(reflection, equal sides, Galilean shift, joint scaling) decided "
+        "tightly on a 60-digit mpmath re-execution of the same solver source "
+        "and, for the double-precision run, within its measured rounding "
+        "error; exact solver checked against an independent transcription "
+        "of Toro's pressure function and the vacuum criterion."),
+  note=("Pure-Python solver functions (the transpiled C twins are not "
+        "executed here); Python-only exceptions on failure paths count as "
+        "'failure reported'; van_leer's absolute 1e-25 pressure clamp is "
+        "kept away from the scaling clause."),
+  technique="property-based testing (Hypothesis) with metamorphic relations and high-precision re-execution as oracle"),
+ 'C19': dict(
+  text=("Generated sets of particle arrays (empty, ghost-only, lacking "
+        "criterion properties, h over six decades incl. all h>1) driven "
+        "through NNPS update + Integrator.compute_time_step and "
+        "Solver._compute_timestep over 1-3 rounds; result compared with a "
+        "numpy evaluation of the documented formula (relative 1e-12)."),
+  note=("hmin over all particles or over real particles both accepted; "
+        "CPU arrays only (no GPU path)."),
+  technique="property-based testing (Hypothesis) against a reference evaluation of the documented formula"),
 }
 
 NOT_APPLICABLE = [
